@@ -21,7 +21,7 @@ func vPopulate(fs FS, n int) {
 	}
 	// a wide, flat directory: loops over plain files of one directory must consult the context too
 	_ = fs.MkDir("/wide")
-	for i := 0; i < 6*n; i++ {
+	for i := 0; i < 48; i++ {
 		_ = fs.WriteFile("/wide/w"+string(rune('a'+i/26))+string(rune('a'+i%26)), []byte("w"), 0o644)
 	}
 	_ = fs.WriteFile("/single", []byte("single"), 0o644)
